@@ -1,6 +1,7 @@
 package rules
 
 import (
+	"go/constant"
 	"fmt"
 	"go/token"
 	"go/types"
@@ -558,5 +559,89 @@ func idZeroRule(c *Ctx, rule string, inScope func(rel string) bool) {
 	r.Counts["key_id_zero_comparisons"] = n
 	if n == 0 {
 		r.Ok(rule, rule+"/none", "-", "no key ID value is compared with the constant 0")
+	}
+}
+
+// ---------------------------------------------------------------- C12.fieldcopy
+//
+// Where a serializer fills a proto field straight from a getter of another
+// proto message, the two fields are the same field (KeySize from GetKeySize):
+// a copy between fields of different names (KeySize from GetDerivedKeySize)
+// writes one quantity where the parser reads another.
+func c12FieldCopy(c *Ctx) {
+	p, r := c.P, c.R
+	n := 0
+	for _, f := range p.SortedFuncs(core.Product) {
+		allInstrs(f, func(ins ssa.Instruction) {
+			base, fld, val, ok := guard.StoreField(ins)
+			if !ok {
+				return
+			}
+			bn := core.NamedOf(base.Type())
+			if pt, isP := base.Type().Underlying().(*types.Pointer); isP {
+				bn = core.NamedOf(pt.Elem())
+			}
+			if bn == nil || bn.Obj().Pkg() == nil || core.ClassOf(bn.Obj().Pkg().Path()) != core.Generated {
+				return
+			}
+			v := val
+			for {
+				if cv, isC := v.(*ssa.Convert); isC {
+					v = cv.X
+					continue
+				}
+				break
+			}
+			call, isCall := v.(*ssa.Call)
+			if !isCall {
+				return
+			}
+			g := call.Call.StaticCallee()
+			if g == nil || g.Signature.Recv() == nil || !strings.HasPrefix(g.Name(), "Get") || core.FuncClass(g) != core.Generated {
+				return
+			}
+			n++
+			src := strings.TrimPrefix(g.Name(), "Get")
+			key := fmt.Sprintf("C12.fieldcopy/%s/%s<-%s", core.FuncID(f), fld, g.Name())
+			r.Check(src == fld, "C12.fieldcopy", key, p.Pos(ins.Pos()),
+				fmt.Sprintf("proto field %s is filled from %s() of another message: the serializer writes %s where the parser reads %s", fld, g.Name(), src, fld),
+				"copied from the field of the same name")
+		})
+	}
+	r.Counts["proto_field_copies"] = n
+}
+
+// ---------------------------------------------------------------- C09.has
+//
+// The presence accessors of RawJWT (HasTypeHeader, HasAudiences, …) and the
+// hasField helper decide presence, not content: no value is dereferenced and
+// compared, no length is taken. A token with `"typ":""` has a type header.
+func c09Has(c *Ctx) {
+	p, r := c.P, c.R
+	n := 0
+	for _, m := range methodsOf(p, "jwt", "RawJWT") {
+		if !(strings.HasPrefix(m.Name(), "Has") || m.Name() == "hasField") {
+			continue
+		}
+		n++
+		bad := ""
+		allInstrs(m, func(ins ssa.Instruction) {
+			switch x := ins.(type) {
+			case *ssa.BinOp:
+				for _, side := range []ssa.Value{x.X, x.Y} {
+					if k, ok := side.(*ssa.Const); ok && k.Value != nil && k.Value.Kind() == constant.String {
+						bad = "compares a header/claim value with a string constant"
+					}
+				}
+			case *ssa.Call:
+				if b, ok := x.Call.Value.(*ssa.Builtin); ok && b.Name() == "len" {
+					bad = "takes the length of a header/claim value"
+				}
+			}
+		})
+		r.Check(bad == "", "C09.has", "C09.has/"+core.FuncID(m), p.FuncPos(m), "presence accessor "+bad+": an empty but present value is reported as absent, so the validator's presence rules judge another token than the one that was signed", "presence only (nil / map membership)")
+	}
+	if n < 5 {
+		r.AnchorMissing("C09.has", fmt.Sprintf("presence accessors of jwt.RawJWT (found %d)", n))
 	}
 }
